@@ -1153,6 +1153,9 @@ class Process(StateMachine, persistence.Savable, metaclass=ProcessStateMachineMe
         try:
             if next_state is not None:
                 self.transition_to(next_state)
+                if self._pausing is None:
+                    # The pause was retracted by play() while transitioning (e.g. by a listener)
+                    return False
 
             if state_msg is None:
                 msg_text = ''
